@@ -213,11 +213,25 @@ def codec_pairs(sites):
     return [(k, r, w) for k, (r, w) in groups.items()]
 
 
+def _walk_same_function(node):
+    """ast.walk that does not descend into nested function / class definitions."""
+    if isinstance(node, (ast.FunctionDef, ast.AsyncFunctionDef, ast.Lambda, ast.ClassDef)):
+        return
+    todo = [node]
+    while todo:
+        n = todo.pop()
+        yield n
+        for ch in ast.iter_child_nodes(n):
+            if not isinstance(ch, (ast.FunctionDef, ast.AsyncFunctionDef, ast.Lambda, ast.ClassDef)):
+                todo.append(ch)
+
+
 def name_entry_points():
     """Every function of api/layers.py and api/psd_image.py that stores a caller-supplied string as a layer name
     (`LayerRecord(name=<parameter>)` or `<x>.name = <parameter>`), and whether it also stores the unicode layer
     name block for it - through `set_data(Tag.UNICODE_LAYER_NAME, <parameter>)` or through the `name` setter -
-    unconditionally (a direct statement of the function body), conditionally (inside if / try / loop) or not at all.
+    unconditionally (a direct statement of the function body with no `return` anywhere before it), conditionally
+    (inside if / try / loop), behind an early return, or not at all.
     [(scope, parameter, mechanism, guard)]"""
     out = []
     for rel in ("api/layers.py", "api/psd_image.py"):
@@ -270,7 +284,15 @@ def name_entry_points():
                             and n.targets[0].value.id not in record_vars and fn.name != "name":
                         mech = "setter"
                     if mech:
-                        found.append((mech, "always" if id(n) in top else "conditional"))
+                        guard = "always" if id(n) in top else "conditional"
+                        if guard == "always":
+                            # "a direct statement of the body" is reached on every call only when nothing before it
+                            # leaves the function normally: an early `return` (an "unchanged, nothing to do" shortcut)
+                            # in front of the store makes it conditional on whatever that shortcut compares
+                            for prev in fn.body[:fn.body.index(n)]:
+                                if any(isinstance(m, ast.Return) for m in _walk_same_function(prev)):
+                                    guard = "early-return-before"
+                        found.append((mech, guard))
                 if not found:
                     out.append((scope, v, "none", "absent"))
                 else:
